@@ -16,6 +16,7 @@ see the `_refuted` theorems at the end.
 -/
 import HvGht.Lemmas.Compare
 import HvGht.Lemmas.Cmp
+import HvGht.Lemmas.Colt
 
 set_option linter.unusedSimpArgs false
 set_option linter.unusedVariables false
@@ -166,6 +167,34 @@ theorem force_preserves_rows (sk : Kind) (d : Nat) (l : Leaf) :
   have := rows_new_from sk 1 d l.rows
   exact ⟨this.1, this.2, rfl, rfl⟩
 
+/-! ## multiset storages (counted hash set, column multiset) -/
+
+/-- with a multiset storage `insert` adds one occurrence of the row -/
+theorem rows_insert_bag_perm (n d : Nat) (t : Ght n) (row : Row) :
+    (grows n (ginsert .bag n d t row).1).Perm (row :: grows n t) :=
+  aux_insert_bag_perm n d t row
+
+/-- with a multiset storage `merge_node` is multiset union -/
+theorem rows_merge_node_bag_perm (n : Nat) (a b : Ght n) :
+    (grows n (gmerge .bag n a b).1).Perm (grows n a ++ grows n b) :=
+  aux_merge_bag_perm n a b
+
+/-! ## COLT forest: `ColtGet::get` -/
+
+/-- One `ColtGet::get(cursor, head)` with the cursor at `path`: the rows of the forest are
+preserved as a multiset (they move from the leaf at `path` of trie `|path|` into trie
+`|path|+1`), and the nodes of the next cursor exist. -/
+theorem colt_get_preserves_rows (F : Forest) (path : List Key) (h : Key) (hr : Reach F path)
+    (hlen : path.length < F.m) :
+    (coltGet F path h).rows.Perm F.rows ∧ Reach (coltGet F path h) (path ++ [h]) :=
+  aux_coltGet_step F path h hr hlen
+
+/-- Any chain of gets from the root cursor, on any forest: no row is lost or duplicated. -/
+theorem colt_gets_preserve_rows (F : Forest) (path : List Key) (hlen : path.length ≤ F.m) :
+    (coltGets F path).rows.Perm F.rows := by
+  unfold coltGets
+  exact aux_coltGets_fold path F [] (aux_reach_root F) (by simpa using hlen)
+
 /-! ## what the code does *not* satisfy (witnesses replayed on the real code by the check) -/
 
 /-- F7: without `NoEmptyChild` the clause "`==`/`partial_cmp` agree with the set of rows" is
@@ -212,6 +241,8 @@ example : gcmp 2 (gnewFrom .set 2 0 [[1, 1, 7]]) (gnewFrom .set 2 0 [[2, 1, 7]])
 example : gcmp 2 (gnewFrom .set 2 0 [[1, 1, 7]]) (gnewFrom .set 2 0 [[1, 1, 7], [2, 1, 7]]) = some .lt := by decide
 example : grows 2 (deepJoin .set 2 2 (gnewFrom .set 2 0 [[1, 1, 7], [2, 2, 9]]) (gnewFrom .set 2 0 [[1, 1, 8], [3, 3, 3]]))
     = [[1, 1, 7, 8]] := by decide
+example : (coltGets ((((Forest.empty 3).insert [1, 1, 1]).insert [2, 2, 2]).insert [1, 1, 5]) [1, 1]).rows
+    = [[2, 2, 2], [1, 1, 1], [1, 1, 5]] := by decide
 example : gprefixIter 2 0 (gnewFrom .set 2 0 [[1, 1, 7], [1, 2, 8], [2, 1, 7]]) [1] = [[1, 1, 7], [1, 2, 8]] := by decide
 
 end HvGht
